@@ -357,7 +357,7 @@ def t_choices(rng, special=()):
     for s in special:
         pool += [s, s + U, s - U, s + 1.0, s - 1.0, 2 * s, 2 * s + U, 3 * s]
     if r < 0.45:
-        return rng.choice(pool)
+        return snap(rng.choice(pool))
     if r < 0.75:
         return float(rng.randint(0, 30000))
     if r < 0.9:
